@@ -83,7 +83,7 @@ impl<'a> IExec<'a> {
             self.m.trusted.remove(name);
         }
         let exp = vec![self.ev_its(vec![sym(if set { "trusted_chain_set" } else { "trusted_chain_removed" }), sstr(name)], svec(vec![]))];
-        ctx.check(res.events == exp, &["C06"], &format!("{}/wrong-event", func), || format!("{:?}", res.events));
+        ctx.check(crate::judge::events_match(&res.events, &exp, &[]), &["C06"], &format!("{}/wrong-event", func), || format!("{:?}", res.events));
     }
 
     pub fn do_transfer_ownership(&mut self, ctx: &mut Ctx, to: u8, auth: AuthVar, abort: Option<u16>) {
@@ -108,7 +108,7 @@ impl<'a> IExec<'a> {
             return;
         }
         let exp = vec![self.ev_its(vec![sym("ownership_transferred"), saddr(&self.h[o]), saddr(&self.h[ti])], svec(vec![]))];
-        ctx.check(res.events == exp, &["C06"], "role-transfer/wrong-event", || format!("{:?}", res.events));
+        ctx.check(crate::judge::events_match(&res.events, &exp, &[]), &["C06"], "role-transfer/wrong-event", || format!("{:?}", res.events));
         if ti != o {
             self.m.former_owner = Some(o);
         }
@@ -309,7 +309,7 @@ impl<'a> IExec<'a> {
         self.m.registry.insert(id, (t, false));
         self.m.reg_order.push(id);
         let exp = vec![self.ev_its(vec![sym("interchain_token_id_claimed"), sbytes(&id), saddr_zero_account(), sbytes(&dsalt)], svec(vec![]))];
-        ctx.check(res.events == exp, &["C11"], "register/wrong-event", || format!("{:?}", res.events));
+        ctx.check(crate::judge::events_match(&res.events, &exp, &[]), &["C11"], "register/wrong-event", || format!("{:?}", res.events));
     }
 
     // ------------------------------------------------------------ gas payment authorisation sub-tree
@@ -341,7 +341,7 @@ impl<'a> IExec<'a> {
             topics: vec![sym("gas_paid"), saddr(&self.its()), sstr(HUB_CHAIN), sstr(&self.cfg.hub_address), sbytes(&keccak(payload)), saddr(&self.h[spender]), tok_sc],
             data: svec(vec![sbytes(&[])]),
         };
-        if !ctx.check(g.len() == 1 && g[0] == exp_g, props, "outbound/wrong-gas-payment-announcement", || format!("expected one gas_paid over the announced payload; got {:?}", g)) {
+        if !ctx.check(crate::judge::events_match(&g, &[exp_g.clone()], &[]), props, "outbound/wrong-gas-payment-announcement", || format!("expected one gas_paid over the announced payload; got {:?}", g)) {
             return false;
         }
         let w = self.from(evs, &self.gateway.clone());
@@ -350,7 +350,7 @@ impl<'a> IExec<'a> {
             topics: vec![sym("contract_called"), saddr(&self.its()), sstr(HUB_CHAIN), sstr(&self.cfg.hub_address), sbytes(&keccak(payload))],
             data: sbytes(payload),
         };
-        ctx.check(w.len() == 1 && w[0] == exp_w, props, "outbound/announced-payload-differs", || {
+        ctx.check(crate::judge::events_match(&w, &[exp_w.clone()], &[]), props, "outbound/announced-payload-differs", || {
             let got = w.first().map(|e| format!("{:?}", e.data)).unwrap_or_default();
             format!("expected contract_called to (axelar, hub address) with payload {} ; got {} event(s) {}", hex::encode(payload), w.len(), got)
         })
@@ -492,7 +492,7 @@ impl<'a> IExec<'a> {
             vec![sym("interchain_transfer_sent"), sbytes(&id), saddr(&self.h[ci]), sstr(dchain), sbytes(dbytes), si128(a)],
             svec(vec![match &data_b { Some(d) => sbytes(d), None => ScVal::Void }]),
         )];
-        if !ctx.check(sent == exp, &["C05"], "send/wrong-sent-event", || format!("{:?}", sent)) {
+        if !ctx.check(crate::judge::events_match(&sent, &exp, &[]), &["C05"], "send/wrong-sent-event", || format!("{:?}", sent)) {
             return;
         }
         self.check_outbound_events(ctx, &res.events, &payload, ci, gas_t, g, &["C05", "C13"]);
@@ -629,7 +629,7 @@ impl<'a> IExec<'a> {
             vec![sym("token_deployment_started"), sbytes(&id), saddr(&self.tok_addr[t]), sstr(dchain), sstr(&n), sstr(&s), su32(d), ScVal::Void],
             svec(vec![]),
         )];
-        if !ctx.check(started == exp, &["C18"], "deploy_remote/wrong-started-event", || format!("{:?}", started)) {
+        if !ctx.check(crate::judge::events_match(&started, &exp, &[]), &["C18"], "deploy_remote/wrong-started-event", || format!("{:?}", started)) {
             return;
         }
         if !self.check_outbound_events(ctx, &res.events, &payload, ci, gas_t, g, &["C18", "C13"]) {
